@@ -6,11 +6,15 @@ import Blue.Proofs.ProtoSz
 import Blue.Proofs.ProtoUnknown
 import Blue.Proofs.ProtoFuel
 import Blue.Proofs.ProtoDeep
+import Blue.Proofs.ProtoPath
+import Blue.Proofs.ProtoNonCanon
+import Blue.Proofs.ProtoPanic
 import Blue.Proofs.EntryCodec
 import Blue.Proofs.ConstsTieProto
 /-! # Property C15 — the protobuf codec round-trips all values and decodes arbitrary bytes safely
 
-Property theorems only (helper lemmas live in `Blue/Proofs/{Wire,Proto,ProtoMsg}.lean`).
+Property theorems only (helper lemmas live in `Blue/Proofs/{Wire,Proto,ProtoMsg,ProtoUnknown,ProtoDeep,
+ProtoPath,ProtoNonCanon,ProtoPanic}.lean`).
 
 Models: `Blue/Model/Wire.lean` (buffertk `v64` with the ten-byte limit and the dropped high bits of
 a ten-byte varint, prototk `Tag` / `FieldNumber` / `WireType`, `FieldIterator::next` with the slice
@@ -20,7 +24,10 @@ theorem) and `Blue/Model/ProtoMsg.lean` (the full schema language: every `field_
 the error class of every failing decode), `Blue/Model/Varint.lean` (the TWO varint decoders of the
 code — `unpack_slow` and the unrolled dispatch over `unpack_size::<SZ>` — operation for operation
 on checked `u64` arithmetic, with the ten-byte boundary that selects between them) and
-`Blue/Model/ProtoSz.lean` (`pack_sz` as the sum the code adds up, not as the length of the packing).  The correspondence check runs the real
+`Blue/Model/ProtoSz.lean` (`pack_sz` as the sum the code adds up, not as the length of the packing),
+`Blue/Model/ProtoPanic.lean` (the message decoder written again over value / error / PANIC: slice
+indexing, checked `usize` arithmetic, the code's varint decoders, the generated loop in the code's
+order; proved equal to `ProtoMsg.unpackMsg` and panic-free).  The correspondence check runs the real
 `#[derive(Message)]` code of a family of 17 types against `ProtoMsg` byte for byte, and the flat
 interpreter side by side on the flat members of the family.
 
@@ -33,10 +40,30 @@ older theorems with a bare fuel `f` hold at every `f`, including fuels below the
 sides may be the exhaustion result — read them through `fuel_stability`.
 
 Model facts (not results about the code).  `decode_total` is a property of the type `Except`:
-the message interpreter has no panic outcome (only the varint-decoder model `Blue.Varint` has one,
-and `varint_unpack_is_decVarint` proves it unreachable).  That the code never panics where the
-model returns an error is observed by the no-panic oracle and the hostile-stream correspondence,
-not proved.  The second conjunct of `tag_roundtrip` restates the definition of `encTag`; there is
+the interpreter `unpackMsg` has no panic outcome.  Message-level panic-freedom is the theorem
+`unpackP_never_panics` about `unpackP`, a second, hand-written rendering of the decoder in which
+every slice index, every `usize` addition / subtraction and the varint decoders can panic;
+`unpackP_eq_unpack` proves it equal to `unpackMsg` (the interpreter the correspondence check runs
+against the code) on every buffer of bytes shorter than 2^63.  The list of operations that can
+panic was read off the source by hand (prototk/src/lib.rs `FieldIterator::next`, field_types.rs,
+buffertk/src/lib.rs `Unpacker` / fixed-width / `Result`), not extracted; allocation (`Vec::push`,
+`String`) and `std::str::from_utf8` are taken not to panic; the no-panic oracle and the
+hostile-stream correspondence remain the observation on the code itself.
+
+Unknown fields.  `unknown_fields_skipped_any_path` covers a path of frames of every kind the schema
+language has (struct field of any cardinality, tuple-variant payload, named-variant body, `Result`
+arm) down to the body of a struct or of a named variant.  The exception to "unknown fields are
+skipped" is an enum's own field: a (number, wire type) no variant takes is `unknown-discriminant`
+(`unknown_variant_rejected`); a unit variant's frame is dropped unread (`unit_variant_frame_ignored`).
+
+Non-minimal varints, by position: value of a varint struct field — rejected
+(`noncanonical_message_rejected`); length prefix of a length-delimited struct field — rejected
+(`nonminimal_length_prefix_rejected`, `buffer-too-short` or `varint-overflow`); tag of a struct field,
+everything an enum or a `Result` reads (payload varint, length prefix, discriminant) — accepted with
+the canonical value (`struct_nonminimal_tag_accepted`, `enum_payload_nonminimal_varint_accepted`,
+`enum_nonminimal_length_prefix_accepted`, `result_nonminimal_accepted`).
+
+The second conjunct of `tag_roundtrip` restates the definition of `encTag`; there is
 no Lean specification of the protocol-buffers wire encoding independent of the model encoder
 (the independent encoder is the harness oracle). -/
 namespace Blue.Props.C15
@@ -196,7 +223,8 @@ theorem noncanonical_field_rejected (buf : List Nat) (x : Nat) (rest : List Nat)
 
 /-- `decode_total` — a MODEL FACT, not a result about the code: it holds of every term of type
     `Except` and says only that the message interpreter is a total function without a panic
-    outcome.  Message-level panic-freedom of the code is observed (no-panic oracle), not proved. -/
+    outcome.  Message-level panic-freedom is `unpackP_never_panics` below, about the decoder with
+    a panic outcome (`Blue/Model/ProtoPanic.lean`), which `unpackP_eq_unpack` ties to this one. -/
 theorem decode_total (f : Nat) (m : Msg) (bs : List Nat) :
     (∃ v rest, unpackMsg f m bs = .ok (v, rest)) ∨ (∃ e, unpackMsg f m bs = .error e) := unpack_total f m bs
 
@@ -324,7 +352,7 @@ theorem field_read_is_local (bs : List Nat) (hb : Blue.Varint.Bytes bs) (fld : T
 
 /-- `unknown_fields_skipped_nested`: the same inside the frame of a nested struct (ONE level) that
     sits at any field boundary of an outer struct, with anything after it; any number of levels is
-    `unknown_fields_skipped_any_depth` -/
+    `unknown_fields_skipped_any_depth`, frames of every kind `unknown_fields_skipped_any_path` -/
 theorem unknown_fields_skipped_nested (f : Nat) (fs : List Field) (n : Nat) (opre osuf pre ub suf : List Nat)
     (t : Tag) (sl : List Nat)
     (hn : validFieldNumber n = true) (hopre : Blue.Varint.Bytes opre)
@@ -476,7 +504,8 @@ theorem unknown_fields_skipped_any_depth (t : Tag) (sl pre ub suf : List Nat)
     struct has an arm for (`n`, varint).  `unpackMsg` rejects the buffer: with the error the
     fields before it already produced, else with `varint-overflow` — never a value.  (Struct
     fields only: an enum reads its payload from the whole remaining buffer and accepts
-    non-minimal varints; non-minimal LENGTH prefixes are not covered by a theorem.) -/
+    non-minimal varints, `enum_payload_nonminimal_varint_accepted`; non-minimal LENGTH prefixes
+    of struct fields are rejected too, `nonminimal_length_prefix_rejected`.) -/
 theorem noncanonical_message_rejected (f : Nat) (fs : List Field) (n : Nat) (pre nb suf : List Nat) (x : Nat)
     (hn : validFieldNumber n = true) (hpre : Blue.Varint.Bytes pre)
     (hclean : (fieldsE (pre.length + 1) pre).2 = none)
@@ -641,6 +670,367 @@ example : (Blue.EntryCodec.Entry.del ⟨0, [], 18446744073709551615⟩).Wf := by
   simp [Blue.EntryCodec.encDel, encBytes, encTag, WT.bits, encVarint_lt, U64]
   omega
 
+-- BEGIN ProtoPath
+/-! ## unknown fields below frames of every kind; non-minimal varints by position -/
+
+/-- congruence along a path of frames of EVERY kind the schema interpreter has (`Step`: a
+    `message<M>` struct field of any cardinality, a tuple variant with a `message<M>` payload, a
+    `message<M>` field in the body of a named variant, the `Ok` / `Err` arm of a `Result`): two
+    buffers that differ only in the innermost bytes `x1` / `x2` (every enclosing length prefix
+    computed from what it encloses: `wrapP`) unpack alike whenever the innermost message type
+    unpacks `x1` and `x2` alike -/
+theorem frame_congruence_any_path (P : Msg → Prop) (x1 x2 : List Nat)
+    (hP : ∀ m, P m → ∀ f, unpackMsg (f + 1) m x1 = unpackMsg (f + 1) m x2)
+    (Ls : List Step) (f : Nat) (m : Msg) (hpath : PathP P m Ls)
+    (h1 : (wrapP Ls x1).length < U64) (h2 : (wrapP Ls x2).length < U64) :
+    unpackMsg (f + 1 + Ls.length) m (wrapP Ls x1) = unpackMsg (f + 1 + Ls.length) m (wrapP Ls x2) :=
+  unpackMsg_congr_pathP P x1 x2 hP Ls f m hpath h1 h2
+
+/-- `unknown_fields_skipped_any_path`: `Ls` is a path of frames of any kinds and any length from the
+    message type `m` to an innermost message type, whose body — the body of a struct
+    (`Inner.struct`) or the body of a named enum variant (`Inner.named`) — has no arm for tag `t`
+    (`PathP (InnerUnknown t inn) m Ls`).  `ub` is any byte string the field iterator reads as
+    exactly one field with tag `t`, inserted at any field boundary of that body (`pre` complete
+    fields, `suf` anything), every enclosing length prefix re-encoded for the new length.  `m`
+    decodes the buffer with the field to what it decodes the buffer without it — value or error
+    — on the fuel-free decoder and at every fuel `f + 1 + length of the path`.  No frame kind
+    rejects an unknown field below it. -/
+theorem unknown_fields_skipped_any_path (t : Tag) (sl pre ub suf : List Nat)
+    (hpre : Blue.Varint.Bytes pre) (hub : Blue.Varint.Bytes ub)
+    (hclean : (fieldsE (pre.length + 1) pre).2 = none)
+    (hu : fieldStepE ub = .ok ((t, sl), []))
+    (Ls : List Step) (inn : Inner) (m : Msg) (hpath : PathP (InnerUnknown t inn) m Ls)
+    (hl : (wrapP Ls (inn.wrap (pre ++ ub ++ suf))).length < U64)
+    (hl' : (wrapP Ls (inn.wrap (pre ++ suf))).length < U64) :
+    decode m (wrapP Ls (inn.wrap (pre ++ ub ++ suf))) = decode m (wrapP Ls (inn.wrap (pre ++ suf)))
+    ∧ ∀ f, unpackMsg (f + 1 + Ls.length) m (wrapP Ls (inn.wrap (pre ++ ub ++ suf)))
+        = unpackMsg (f + 1 + Ls.length) m (wrapP Ls (inn.wrap (pre ++ suf))) :=
+  ⟨decode_unknown_pathP t sl pre ub suf hpre hub hclean hu Ls inn m hpath hl hl',
+   fun f => unpackMsg_unknown_pathP t sl pre ub suf hpre hub hclean hu Ls inn f m hpath hl hl'⟩
+
+/-- the exception to "unknown fields are skipped": an enum's OWN field.  A well-formed field whose
+    (number, wire type) no variant takes is rejected with `unknown-discriminant`, whatever
+    follows (`enum_snippet`: `_ => return Err(unknown_discriminant(num))`) -/
+theorem unknown_variant_rejected (f : Nat) (vars : List Variant) (d : Val) (t : Tag) (rest : List Nat)
+    (ht : validFieldNumber t.num = true) (hnone : findVariant vars t 0 = none) :
+    unpackMsg (f + 1) (.enum vars d) (encTag t ++ rest) = .error .unknownDiscriminant :=
+  Blue.ProtoMsg.unknown_variant_rejected f vars d t rest ht hnone
+
+/-- a unit variant drops its frame unread: ANY bytes in it decode to the variant -/
+theorem unit_variant_frame_ignored (f : Nat) (vars : List Variant) (d : Val) (n i n' : Nat)
+    (x rest : List Nat) (hn : validFieldNumber n = true) (hx : x.length < U64)
+    (hfind : findVariant vars ⟨n, .lengthDelimited⟩ 0 = some (i, .unit n')) :
+    unpackMsg (f + 1) (.enum vars d) (encTag ⟨n, .lengthDelimited⟩ ++ encBytes x ++ rest)
+      = .ok (.variant i (.struct []), rest) :=
+  Blue.ProtoMsg.unit_variant_frame_ignored f vars d n i n' x rest hn hx hfind
+
+/-- `nonminimal_length_prefix_rejected`: `nb` is a varint the decoder reads completely but longer
+    than the canonical encoding of its value `x`; it arrives as the LENGTH PREFIX of field `n`
+    (length-delimited) at any field boundary of any buffer, followed by at least `x` bytes; the
+    struct has an arm for (`n`, length-delimited): `bytes`, `string`, `bytesNN` or `message<M>`,
+    of any cardinality.  The struct is rejected — with the error the fields before it already
+    produced, else with `buffer-too-short` when the iterator's cut (canonical prefix size + `x`)
+    falls after the prefix, `varint-overflow` when it falls inside it (`nonminimalPrefixErr`) —
+    never a value -/
+theorem nonminimal_length_prefix_rejected (f : Nat) (fs : List Field) (n : Nat) (pre nb rest : List Nat) (x : Nat)
+    (hn : validFieldNumber n = true) (hpre : Blue.Varint.Bytes pre)
+    (hclean : (fieldsE (pre.length + 1) pre).2 = none)
+    (hdec : decVarint nb = some (x, [])) (hnc : (encVarint x).length < nb.length)
+    (hlen : x ≤ rest.length)
+    (harm : ∃ g ∈ fs, g.num = n ∧ g.ty.wt = .lengthDelimited) :
+    unpackMsg (f + 1) (.struct fs) (pre ++ (encTag ⟨n, .lengthDelimited⟩ ++ nb ++ rest))
+      = (match unpackMsg (f + 1) (.struct fs) pre with
+        | .error e => .error e
+        | .ok _ => .error (nonminimalPrefixErr nb.length x))
+    ∧ nonminimalPrefixErr nb.length x
+        = (if nb.length ≤ (encVarint x).length + x then Err.bufferTooShort else Err.varintOverflow)
+    ∧ ∃ e, decode (.struct fs) (pre ++ (encTag ⟨n, .lengthDelimited⟩ ++ nb ++ rest)) = .error e :=
+  ⟨unpackMsg_nonminimal_length_prefix_rejected f fs n pre nb rest x hn hpre hclean hdec hnc hlen harm, rfl,
+   decode_nonminimal_length_prefix_rejected fs n pre nb rest x hn hpre hclean hdec hnc hlen harm⟩
+
+/-- `enum_payload_nonminimal_varint_accepted`: the payload of a tuple variant with a varint field
+    type is read from the whole remaining buffer (`unpack_from(&mut up)`), so a non-minimal varint
+    `nb` of value `x` decodes to what the canonical encoding decodes to (value and rest) -/
+theorem enum_payload_nonminimal_varint_accepted (f : Nat) (vars : List Variant) (d : Val) (n i n' : Nat) (s : Scalar)
+    (nb rest : List Nat) (x : Nat) (hn : validFieldNumber n = true)
+    (hfind : findVariant vars ⟨n, .varint⟩ 0 = some (i, .tuple n' (.scalar s)))
+    (hdec : decVarint nb = some (x, [])) :
+    unpackMsg (f + 1) (.enum vars d) (encTag ⟨n, .varint⟩ ++ nb ++ rest)
+      = unpackMsg (f + 1) (.enum vars d) (encTag ⟨n, .varint⟩ ++ encVarint x ++ rest) :=
+  unpackMsg_enum_nonminimal_varint f vars d n i n' s nb rest x hn hfind hdec
+
+/-- the witness: `10 87 00` = tuple variant 2 (uint64) with the value 7 written in two bytes -/
+theorem enum_payload_nonminimal_varint_accepted_witness :
+    unpackMsg 1 (.enum [.tuple 2 (.scalar .uint64)] (.variant 0 (.int 0))) [0x10, 0x87, 0x00, 0x55]
+      = .ok (.variant 0 (.int 7), [0x55]) := by rfl
+
+/-- the length prefix of ANY variant of an enum (unit, tuple with a length-delimited field type,
+    named): non-minimal prefixes are accepted -/
+theorem enum_nonminimal_length_prefix_accepted (f : Nat) (vars : List Variant) (d : Val) (n : Nat)
+    (nb rest : List Nat) (x : Nat) (hn : validFieldNumber n = true)
+    (hdec : decVarint nb = some (x, [])) :
+    unpackMsg (f + 1) (.enum vars d) (encTag ⟨n, .lengthDelimited⟩ ++ nb ++ rest)
+      = unpackMsg (f + 1) (.enum vars d) (encTag ⟨n, .lengthDelimited⟩ ++ encVarint x ++ rest) :=
+  unpackMsg_enum_nonminimal_length_prefix f vars d n nb rest x hn hdec
+
+/-- `Result<T, E>`: non-minimal encodings of the discriminant (a bare varint) and of the length
+    prefix are accepted -/
+theorem result_nonminimal_accepted (f : Nat) (okm errm : Msg) (d : Val) (tb nb rest : List Nat) (tv x : Nat)
+    (htag : decVarint tb = some (tv, [])) (hdec : decVarint nb = some (x, [])) :
+    unpackMsg (f + 1) (.result okm errm d) (tb ++ nb ++ rest)
+      = unpackMsg (f + 1) (.result okm errm d) (encVarint tv ++ encVarint x ++ rest) :=
+  unpackMsg_result_nonminimal f okm errm d tb nb rest tv x htag hdec
+
+/-- a struct field whose TAG is a non-minimal varint is read like the field with the canonical
+    tag (the iterator's cut concerns the payload only) -/
+theorem struct_nonminimal_tag_accepted (f : Nat) (fs : List Field) (pre tb p : List Nat) (tv : Nat)
+    (hpre : Blue.Varint.Bytes pre) (hclean : (fieldsE (pre.length + 1) pre).2 = none)
+    (htag : decVarint tb = some (tv, [])) :
+    unpackMsg (f + 1) (.struct fs) (pre ++ (tb ++ p)) = unpackMsg (f + 1) (.struct fs) (pre ++ (encVarint tv ++ p)) :=
+  unpackMsg_struct_nonminimal_tag f fs pre tb p tv hpre hclean htag
+
+/-! ### non-vacuity: one schema with every kind of frame -/
+
+/-- the innermost struct: knows field 1 only -/
+def exLeaf : Msg := .struct [.mk 1 .one (.scalar .uint64)]
+/-- an enum with a tuple variant holding a message, a named variant holding a struct, a unit
+    variant and a varint tuple variant -/
+def exEnum : Msg :=
+  .enum [.tuple 1 (.msg exLeaf), .named 2 [.mk 3 .one (.msg exLeaf)], .unit 4, .tuple 5 (.scalar .uint64)]
+    (.variant 2 (.struct []))
+/-- `Result<Leaf, Enum>` -/
+def exResult : Msg := .result exLeaf exEnum (.variant 0 (.struct [.int 0]))
+/-- the outer struct: a varint, the enum, an optional `Result`, a repeated leaf -/
+def exTop : Msg :=
+  .struct [.mk 1 .one (.scalar .uint64), .mk 2 .one (.msg exEnum), .mk 3 .opt (.msg exResult), .mk 4 .rep (.msg exLeaf)]
+
+/-- struct field → `Result` `Err` arm → named variant body → struct: a path through four kinds of
+    frame to a struct that does not know field 7 -/
+def exPathA : List Step := [.field [0x08, 0x01] 3 [], .err [], .named 2 [] [] 3 []]
+/-- struct field → tuple variant payload -/
+def exPathB : List Step := [.field [] 2 [0x08, 0x01], .tuple 1 []]
+/-- struct field (`Option`) → `Result` `Ok` arm -/
+def exPathC : List Step := [.field [] 3 [], .ok []]
+/-- struct field → `Result` `Err` arm; the innermost frame is the BODY of named variant 2 -/
+def exPathD : List Step := [.field [] 3 [], .err []]
+theorem exLeaf_unknown : Unknown [.mk 1 .one (.scalar .uint64)] ⟨7, .lengthDelimited⟩ := by
+  intro f hf; simp at hf; subst hf; simp [Field.num]
+
+/-- the hypotheses of `unknown_fields_skipped_any_path` on path A (struct field → `Result` `Err` →
+    named variant body → struct): the path is one of the schema, the inserted bytes are one field
+    with the unknown tag (7, length-delimited), the bytes before it are a complete field -/
+example : PathP (InnerUnknown ⟨7, .lengthDelimited⟩ .struct) exTop exPathA
+    ∧ fieldStepE [0x3a, 0x01, 0xaa] = .ok ((⟨7, .lengthDelimited⟩, [0x01, 0xaa]), [])
+    ∧ (fieldsE ([0x08, 0x05].length + 1) [0x08, 0x05]).2 = none
+    ∧ (wrapP exPathA (Inner.struct.wrap ([0x08, 0x05] ++ [0x3a, 0x01, 0xaa] ++ []))).length < U64
+    ∧ (wrapP exPathA (Inner.struct.wrap ([0x08, 0x05] ++ []))).length < U64 := by
+  have c1 : (fieldsE ([0x08, 0x01].length + 1) [0x08, 0x01]).2 = none := by decide
+  have c0 : (fieldsE (([] : List Nat).length + 1) []).2 = none := rfl
+  refine ⟨?_, by with_unfolding_all rfl, by decide,
+    by simp [exPathA, wrapP, Step.wrap, Inner.wrap, encBytes, encTag, WT.bits, encVarint_lt, U64],
+    by simp [exPathA, wrapP, Step.wrap, Inner.wrap, encBytes, encTag, WT.bits, encVarint_lt, U64]⟩
+  refine ⟨by decide, (by intro b hb; simp at hb; omega), c1, ?_⟩
+  intro g hg hc
+  simp at hg
+  rcases hg with rfl | rfl | rfl | rfl <;> simp [Field.num, Field.ty, Ty.wt, Scalar.wt] at hc
+  refine ⟨_, rfl, ?_⟩
+  show PathP _ exEnum _
+  refine ⟨by decide, by decide, (by intro b hb; cases hb), c0, 1, 2, _, rfl, ?_⟩
+  intro g hg hc
+  simp at hg; subst hg
+  exact ⟨_, rfl, exLeaf_unknown⟩
+
+/-- the two buffers of path A, byte for byte, and what the outer struct decodes both to -/
+example :
+    wrapP exPathA (Inner.struct.wrap ([0x08, 0x05] ++ [0x3a, 0x01, 0xaa] ++ []))
+      = [0x08, 0x01, 0x1a, 0x0b, 0x12, 0x09, 0x12, 0x07, 0x1a, 0x05, 0x08, 0x05, 0x3a, 0x01, 0xaa]
+    ∧ wrapP exPathA (Inner.struct.wrap ([0x08, 0x05] ++ []))
+      = [0x08, 0x01, 0x1a, 0x08, 0x12, 0x06, 0x12, 0x04, 0x1a, 0x02, 0x08, 0x05]
+    ∧ decode exTop [0x08, 0x01, 0x1a, 0x0b, 0x12, 0x09, 0x12, 0x07, 0x1a, 0x05, 0x08, 0x05, 0x3a, 0x01, 0xaa]
+      = .ok (.struct [.int 1, .variant 2 (.struct []),
+          .some (.variant 1 (.variant 1 (.struct [.struct [.int 5]]))), .list []], [])
+    ∧ decode exTop [0x08, 0x01, 0x1a, 0x08, 0x12, 0x06, 0x12, 0x04, 0x1a, 0x02, 0x08, 0x05]
+      = .ok (.struct [.int 1, .variant 2 (.struct []),
+          .some (.variant 1 (.variant 1 (.struct [.struct [.int 5]]))), .list []], []) := by
+  refine ⟨by simp [exPathA, wrapP, Step.wrap, Inner.wrap, encBytes, encTag, WT.bits, encVarint_lt],
+    by simp [exPathA, wrapP, Step.wrap, Inner.wrap, encBytes, encTag, WT.bits, encVarint_lt],
+    by with_unfolding_all rfl, by with_unfolding_all rfl⟩
+
+/-- path B: struct field → TUPLE variant payload -/
+example : PathP (InnerUnknown ⟨7, .lengthDelimited⟩ .struct) exTop exPathB := by
+  refine ⟨by decide, (by intro b hb; cases hb), rfl, ?_⟩
+  intro g hg hc
+  simp at hg
+  rcases hg with rfl | rfl | rfl | rfl <;> simp [Field.num, Field.ty, Ty.wt, Scalar.wt] at hc
+  refine ⟨_, rfl, ?_⟩
+  show PathP _ exEnum _
+  exact ⟨by decide, 0, 1, _, rfl, exLeaf_unknown⟩
+
+/-- path C: `Option` struct field → `Result` `Ok` arm -/
+example : PathP (InnerUnknown ⟨7, .lengthDelimited⟩ .struct) exTop exPathC := by
+  refine ⟨by decide, (by intro b hb; cases hb), rfl, ?_⟩
+  intro g hg hc
+  simp at hg
+  rcases hg with rfl | rfl | rfl | rfl <;> simp [Field.num, Field.ty, Ty.wt, Scalar.wt] at hc
+  refine ⟨_, rfl, ?_⟩
+  show PathP _ exLeaf _
+  exact exLeaf_unknown
+
+/-- path E: a `Vec` struct field (the cardinality does not enter the decode of the element) -/
+example : PathP (InnerUnknown ⟨7, .lengthDelimited⟩ .struct) exTop [.field [] 4 []] := by
+  refine ⟨by decide, (by intro b hb; cases hb), rfl, ?_⟩
+  intro g hg hc
+  simp at hg
+  rcases hg with rfl | rfl | rfl | rfl <;> simp [Field.num, Field.ty, Ty.wt, Scalar.wt] at hc
+  exact ⟨_, rfl, exLeaf_unknown⟩
+
+/-- path D: the innermost frame is the body of named variant 2 (below a struct field and a `Result`
+    `Err` arm); the body knows field 3 only; the buffers and their common decode -/
+example : PathP (InnerUnknown ⟨7, .lengthDelimited⟩ (.named 2 [])) exTop exPathD
+    ∧ wrapP exPathD ((Inner.named 2 []).wrap ([0x1a, 0x02, 0x08, 0x05] ++ [0x3a, 0x01, 0xaa] ++ []))
+      = [0x1a, 0x0b, 0x12, 0x09, 0x12, 0x07, 0x1a, 0x02, 0x08, 0x05, 0x3a, 0x01, 0xaa]
+    ∧ decode exTop [0x1a, 0x0b, 0x12, 0x09, 0x12, 0x07, 0x1a, 0x02, 0x08, 0x05, 0x3a, 0x01, 0xaa]
+      = .ok (.struct [.int 0, .variant 2 (.struct []),
+          .some (.variant 1 (.variant 1 (.struct [.struct [.int 5]]))), .list []], []) := by
+  refine ⟨?_, by simp [exPathD, wrapP, Step.wrap, Inner.wrap, encBytes, encTag, WT.bits, encVarint_lt],
+    by with_unfolding_all rfl⟩
+  refine ⟨by decide, (by intro b hb; cases hb), rfl, ?_⟩
+  intro g hg hc
+  simp at hg
+  rcases hg with rfl | rfl | rfl | rfl <;> simp [Field.num, Field.ty, Ty.wt, Scalar.wt] at hc
+  refine ⟨_, rfl, ?_⟩
+  show PathP _ exEnum []
+  unfold exEnum
+  simp only [PathP, InnerUnknown]
+  refine ⟨by decide, 1, 2, _, rfl, ?_⟩
+  intro f hf; simp at hf; subst hf; simp [Field.num]
+
+/-- `unknown_variant_rejected` / `unit_variant_frame_ignored`: the enum has no variant for
+    (9, varint); variant 4 is a unit variant: `22 03 ff ff ff` (garbage in its frame) decodes -/
+example : findVariant [Variant.tuple 1 (.msg exLeaf), .named 2 [.mk 3 .one (.msg exLeaf)], .unit 4,
+      .tuple 5 (.scalar .uint64)] ⟨9, .varint⟩ 0 = none
+    ∧ findVariant [Variant.tuple 1 (.msg exLeaf), .named 2 [.mk 3 .one (.msg exLeaf)], .unit 4,
+      .tuple 5 (.scalar .uint64)] ⟨4, .lengthDelimited⟩ 0 = some (2, .unit 4)
+    ∧ unpackMsg 2 exEnum [0x48, 0x01] = .error .unknownDiscriminant
+    ∧ unpackMsg 2 exEnum [0x22, 0x03, 0xff, 0xff, 0xff, 0x55] = .ok (.variant 2 (.struct []), [0x55]) :=
+  ⟨rfl, rfl, by with_unfolding_all rfl, by with_unfolding_all rfl⟩
+
+/-- `nonminimal_length_prefix_rejected`: both error classes are inhabited.  `81 00` (the length 1
+    in two bytes) before one byte: the cut falls after the prefix, `buffer-too-short`; `80 80 00`
+    (the length 0 in three bytes): the cut falls inside the prefix, `varint-overflow`.  Field 4 of
+    the outer struct (`Vec<Leaf>`) is a length-delimited arm. -/
+example : decVarint [0x81, 0x00] = some (1, []) ∧ (encVarint 1).length < [0x81, 0x00].length ∧ 1 ≤ [0xaa].length
+    ∧ decVarint [0x80, 0x80, 0x00] = some (0, []) ∧ (encVarint 0).length < [0x80, 0x80, 0x00].length
+    ∧ nonminimalPrefixErr 2 1 = .bufferTooShort ∧ nonminimalPrefixErr 3 0 = .varintOverflow
+    ∧ (∃ g ∈ [Field.mk 1 .one (.scalar .uint64), .mk 2 .one (.msg exEnum), .mk 3 .opt (.msg exResult),
+        .mk 4 .rep (.msg exLeaf)], g.num = 4 ∧ g.ty.wt = .lengthDelimited)
+    ∧ decode exTop [0x22, 0x81, 0x00, 0xaa] = .error .bufferTooShort
+    ∧ decode exTop [0x22, 0x80, 0x80, 0x00] = .error .varintOverflow
+    ∧ decode exTop [0x22, 0x00] = .ok (.struct [.int 0, .variant 2 (.struct []), .none, .list [.struct [.int 0]]], []) := by
+  refine ⟨by decide, by decide +kernel, by decide, by decide, by decide +kernel, by decide +kernel, by decide +kernel,
+    ⟨.mk 4 .rep (.msg exLeaf), by simp, rfl, rfl⟩,
+    by with_unfolding_all rfl, by with_unfolding_all rfl, by with_unfolding_all rfl⟩
+
+/-- the accepted positions: variant 5 of the enum is a varint tuple variant and `87 00` is the value
+    7 in two bytes; `8a 00` is the `Result` discriminant 10 in two bytes, `82 00` the length 2;
+    `88 00` is the tag (1, varint) in two bytes.  The decodes are those of the canonical bytes. -/
+example : findVariant [Variant.tuple 1 (.msg exLeaf), .named 2 [.mk 3 .one (.msg exLeaf)], .unit 4,
+      .tuple 5 (.scalar .uint64)] ⟨5, .varint⟩ 0 = some (3, .tuple 5 (.scalar .uint64))
+    ∧ decVarint [0x87, 0x00] = some (7, []) ∧ decVarint [0x8a, 0x00] = some (10, [])
+    ∧ decVarint [0x82, 0x00] = some (2, []) ∧ decVarint [0x88, 0x00] = some (8, [])
+    ∧ unpackMsg 2 exEnum [0x28, 0x87, 0x00] = .ok (.variant 3 (.int 7), [])
+    ∧ unpackMsg 2 exEnum [0x22, 0x80, 0x00] = .ok (.variant 2 (.struct []), [])
+    ∧ unpackMsg 2 exResult [0x8a, 0x00, 0x82, 0x00, 0x08, 0x05] = .ok (.variant 0 (.struct [.int 5]), [])
+    ∧ unpackMsg 1 exLeaf [0x88, 0x00, 0x05] = .ok (.struct [.int 5], []) :=
+  ⟨rfl, by decide, by decide, by decide, by decide, by with_unfolding_all rfl, by with_unfolding_all rfl,
+   by with_unfolding_all rfl, by with_unfolding_all rfl⟩
+/-- what follows an enum's own field INSIDE the enum's frame is not a skipped unknown field: a
+    struct field of enum (or `Result`) type whose frame holds the value's field followed by anything
+    (`extra`, e.g. a well-formed field with a number no variant has) is rejected with
+    `wrong-length` (`message<M>::unpack` requires the nested `unpack` to consume its frame; the
+    same check guards a tuple-variant payload and a field of a named variant) -/
+theorem enum_field_trailing_rejected (f : Nat) (fs : List Field) (n : Nat) (m : Msg) (v : Val)
+    (pre extra suf : List Nat)
+    (hn : validFieldNumber n = true) (hpre : Blue.Varint.Bytes pre)
+    (hclean : (fieldsE (pre.length + 1) pre).2 = none)
+    (h : WfMsg f m v) (hm : ∀ gs, m ≠ .struct gs) (hne : extra ≠ [])
+    (hl : (packMsg f m v ++ extra).length < U64)
+    (harm : ∃ g ∈ fs, g.num = n ∧ g.ty.wt = .lengthDelimited)
+    (harms : ∀ g ∈ fs, g.num = n ∧ g.ty.wt = .lengthDelimited → g.ty = .msg m) :
+    unpackMsg (f + 1) (.struct fs)
+        (pre ++ (encTag ⟨n, .lengthDelimited⟩ ++ encBytes (packMsg f m v ++ extra) ++ suf))
+      = match unpackMsg (f + 1) (.struct fs) pre with
+        | .error e' => .error e'
+        | .ok _ => .error .wrongLength :=
+  unpackMsg_enum_field_trailing_rejected f fs n m v pre extra suf hn hpre hclean h hm hne hl harm harms
+
+/-- … while the arm of a `Result` drops it (`let (t, _) = T::unpack(buf)?`) -/
+theorem result_arm_trailing_ignored (f : Nat) (okm errm : Msg) (d : Val) (v : Val)
+    (extra rest : List Nat) (h : WfMsg f okm v) (hm : ∀ gs, okm ≠ .struct gs)
+    (hl : (packMsg f okm v ++ extra).length < U64) :
+    unpackMsg (f + 1) (.result okm errm d) (encVarint 10 ++ encBytes (packMsg f okm v ++ extra) ++ rest)
+      = .ok (.variant 0 v, rest) :=
+  unpackMsg_result_arm_trailing_ignored f okm errm d v extra rest h hm hl
+
+/-- the hypotheses of the two: the unit variant of a one-variant enum is a value of it, its packing
+    `0a 00` followed by the unknown field `3a 01 aa` is short; a struct whose field 2 is that enum;
+    and the two decodes on the bytes -/
+example : WfMsg 1 (.enum [.unit 1] (.variant 0 (.struct []))) (.variant 0 (.struct []))
+    ∧ (packMsg 1 (.enum [.unit 1] (.variant 0 (.struct []))) (.variant 0 (.struct [])) ++ [0x3a, 0x01, 0xaa]).length < U64
+    ∧ (∃ g ∈ [Field.mk 2 .one (.msg (.enum [.unit 1] (.variant 0 (.struct []))))], g.num = 2 ∧ g.ty.wt = .lengthDelimited)
+    ∧ unpackMsg 2 (.struct [.mk 2 .one (.msg (.enum [.unit 1] (.variant 0 (.struct []))))])
+        [0x12, 0x05, 0x0a, 0x00, 0x3a, 0x01, 0xaa] = .error .wrongLength
+    ∧ unpackMsg 2 (.result (.enum [.unit 1] (.variant 0 (.struct []))) exLeaf (.variant 0 (.variant 0 (.struct []))))
+        [0x0a, 0x05, 0x0a, 0x00, 0x3a, 0x01, 0xaa, 0x55] = .ok (.variant 0 (.variant 0 (.struct [])), [0x55]) := by
+  refine ⟨⟨.unit 1, rfl, by decide, (by intro j w hj; omega), trivial⟩, ?_,
+    ⟨_, List.mem_cons_self, rfl, rfl⟩, by with_unfolding_all rfl, by with_unfolding_all rfl⟩
+  simp [packMsg, encBytes, encTag, WT.bits, encVarint_lt, U64]
+
+/-! ## message-level panic-freedom -/
+
+/-- `unpackP_eq_unpack`: `unpackP` (`Blue/Model/ProtoPanic.lean`) is the message decoder written
+    again as the Rust code has it over value / error / PANIC: every slice `&buf[..k]` / `&buf[k..]`
+    of `FieldIterator::next`, of the length-delimited and fixed-width unpackers and of `Result`
+    panics when `k` exceeds the length, `x.pack_sz() + sz` and `v - empty.len()` panic on `usize`
+    overflow, varints go through the code's two decoders with their panic outcome, and the
+    generated loop runs in the code's order (a merge error returns at once, the iterator's error
+    after the loop).  On every buffer of bytes no longer than `isize::MAX` (`Good`; Rust's bound on
+    slices) it returns what the interpreter `unpackMsg` returns — same value and rest, same error
+    — at every fuel, hence also on the fuel-free decoder -/
+theorem unpackP_eq_unpack (f : Nat) (m : Msg) (bs : List Nat) (hg : Blue.ProtoPanic.Good bs) :
+    Blue.ProtoPanic.unpackP f m bs = Blue.ProtoPanic.ofR (unpackMsg f m bs)
+    ∧ Blue.ProtoPanic.unpackP m.depth m bs = Blue.ProtoPanic.ofR (decode m bs) :=
+  ⟨Blue.ProtoPanic.unpackP_eq_unpack f m bs hg, Blue.ProtoPanic.unpackP_eq_unpack m.depth m bs hg⟩
+
+/-- `unpackP_never_panics`: unpacking ANY byte string as ANY message type of the schema language
+    returns a value or an error: no slice index out of range, no `usize` overflow, no index past
+    the buffer in the varint decoders.  (What makes the slices of `FieldIterator::next` safe is
+    that a varint occupies at least the bytes of its canonical encoding, `decVarint_canonical_le`;
+    what makes `v - empty.len()` safe is that `unpack` hands back part of its buffer,
+    `unpackMsg_left_sub`.) -/
+theorem unpackP_never_panics (f : Nat) (m : Msg) (bs : List Nat) (hg : Blue.ProtoPanic.Good bs) :
+    Blue.ProtoPanic.unpackP f m bs ≠ .panic
+    ∧ ((∃ v rest, Blue.ProtoPanic.unpackP f m bs = .ok (v, rest)) ∨ ∃ e, Blue.ProtoPanic.unpackP f m bs = .err e) := by
+  refine ⟨Blue.ProtoPanic.unpackP_never_panics f m bs hg, ?_⟩
+  rw [Blue.ProtoPanic.unpackP_eq_unpack f m bs hg]
+  cases unpackMsg f m bs with
+  | error e => exact Or.inr ⟨e, rfl⟩
+  | ok r => exact Or.inl ⟨r.1, r.2, rfl⟩
+
+/-- the panic outcome is a real outcome of the operations the model is built from (an unguarded
+    slice, an unguarded subtraction), and `unpackP` computes on concrete bytes: the buffer of path
+    A, and a hostile one (a length prefix that runs past the end) -/
+example : Blue.ProtoPanic.sliceTo [1, 2] 3 = .panic ∧ Blue.ProtoPanic.sliceFrom [1, 2] 3 = .panic
+    ∧ Blue.ProtoPanic.subU 1 2 = .panic ∧ Blue.ProtoPanic.addU 18446744073709551615 1 = .panic
+    ∧ Blue.ProtoPanic.Good [0x08, 0x01, 0x1a, 0x0b, 0x12, 0x09, 0x12, 0x07, 0x1a, 0x05, 0x08, 0x05, 0x3a, 0x01, 0xaa]
+    ∧ Blue.ProtoPanic.unpackP 4 exTop [0x08, 0x01, 0x1a, 0x0b, 0x12, 0x09, 0x12, 0x07, 0x1a, 0x05, 0x08, 0x05, 0x3a, 0x01, 0xaa]
+      = .ok (.struct [.int 1, .variant 2 (.struct []),
+          .some (.variant 1 (.variant 1 (.struct [.struct [.int 5]]))), .list []], [])
+    ∧ Blue.ProtoPanic.unpackP 4 exTop [0x1a, 0x7f, 0x12] = .err .bufferTooShort := by
+  refine ⟨rfl, rfl, rfl, rfl, ⟨?_, by decide⟩, by with_unfolding_all rfl, by with_unfolding_all rfl⟩
+  intro b hb; simp at hb; omega
+-- END ProtoPath
+
 end Blue.Props.C15
 
 #print axioms Blue.Props.C15.wire_types_from_source
@@ -690,3 +1080,17 @@ end Blue.Props.C15
 #print axioms Blue.Props.C15.unknown_fields_skipped_any_depth
 #print axioms Blue.Props.C15.noncanonical_message_rejected
 #print axioms Blue.Props.C15.inner_fuels_suffice
+#print axioms Blue.Props.C15.frame_congruence_any_path
+#print axioms Blue.Props.C15.unknown_fields_skipped_any_path
+#print axioms Blue.Props.C15.unknown_variant_rejected
+#print axioms Blue.Props.C15.unit_variant_frame_ignored
+#print axioms Blue.Props.C15.nonminimal_length_prefix_rejected
+#print axioms Blue.Props.C15.enum_payload_nonminimal_varint_accepted
+#print axioms Blue.Props.C15.enum_payload_nonminimal_varint_accepted_witness
+#print axioms Blue.Props.C15.enum_nonminimal_length_prefix_accepted
+#print axioms Blue.Props.C15.result_nonminimal_accepted
+#print axioms Blue.Props.C15.struct_nonminimal_tag_accepted
+#print axioms Blue.Props.C15.unpackP_eq_unpack
+#print axioms Blue.Props.C15.unpackP_never_panics
+#print axioms Blue.Props.C15.enum_field_trailing_rejected
+#print axioms Blue.Props.C15.result_arm_trailing_ignored
